@@ -355,6 +355,9 @@ void ares_dnsrec_convert_cb(void *arg, ares_status_t status, size_t timeouts,
 
 void ares_free_query(ares_query_t *query);
 
+/*! Take a query off the connection it is waiting on and off the timeout list */
+void ares_query_remove_from_conn(ares_query_t *query);
+
 unsigned short ares_generate_new_id(ares_rand_state *state);
 ares_status_t  ares_expand_name_validated(const unsigned char *encoded,
                                           const unsigned char *abuf, size_t alen,
